@@ -272,6 +272,9 @@ func newWriteCmdArgsFromInputInstances(cmd *cobra.Command, inputInstances []*inp
 				return nil, err
 			}
 		}
+		if err := v.Validate(); err != nil {
+			return nil, fmt.Errorf("%w: instances[%d]", err, i)
+		}
 		if k := v.Key; k != nil {
 			if _, err := op.NewScale(*k); err != nil {
 				return nil, fmt.Errorf("%w: instances[%d]", err, i)
